@@ -6,6 +6,11 @@ HERE = os.path.dirname(os.path.abspath(__file__))
 
 # id -> (level, technique, text, note)   (only implemented checks are listed; the rest go to not_applicable)
 CHECKS = {
+    "C04": ("model_checking",
+            "exhaustive value sweeps (all 1-2 byte strings, every Unicode scalar as a name, all 2^32 integers and all finite f32 in thorough) x writer placements, each serialised by the real writer and read back by the real parser",
+            "The value domains the property names are enumerated completely within the stated sizes and pushed through every placement the writer uses (array first/middle/last, dictionary value and key, alone, content-stream operand via serialize_ops/parse_ops, indirect object through the real Updater::create + Storage::save + reload).",
+            "Trusted: nothing but the comparison (Integer(n) == Number(n as f32)). Strings longer than 2 bytes and names longer than 3 characters are covered only through the catalogue values; NaN/inf excluded.",
+            "§5 C04"),
     "C03": ("model_checking",
             "deviation-bounded exhaustive exploration of the choice tree of a specification-conformant printer (every spelling within <=1/<=2 deviations of the canonical one), each leaf parsed by the real parser and compared with the printer's input value",
             "All values of the catalogue (every kind, all ordered kind pairs, nesting to depth 20) x 5 parse entry contexts are a full product; spelling freedoms (11 separator kinds incl. comments, number forms, string escapes/octal/continuations/raw EOLs, hex forms, #xx) are explored exhaustively up to 1 (quick) / 2 (thorough, 3 on atoms) simultaneous deviations; sequences check that each parse consumes exactly its own text.",
